@@ -490,7 +490,7 @@ func c06Exec(scAny any, c *simcheck.Ctx) *simcheck.Violation {
 			for i := range h.p.Modules {
 				broken2 = broken2 || (h.p.Modules[i].Fails && reach2[h.p.Modules[i].label()])
 			}
-			what := fmt.Sprintf("reload after the requirement on %s moved to %s", extPath(e), extVersions[h.p.Exts[e].Sel])
+			what := fmt.Sprintf("reload after the requirement on %s moved to %s", extPath(e), extVersion(e, h.p.Exts[e].Sel))
 			h.w.events = nil
 			res := h.build(9, &opSpec{Op: "load-only", Reload: true}, h.pc, nil)
 			if v := procFailure(res); v != nil {
